@@ -169,6 +169,19 @@ func (c *EmuCircuit[T]) Define(api frontend.API) error {
 			r = f.ReduceStrict(a[0])
 		case "Eval2":
 			r = f.Eval([][]*emulated.Element[T]{{a[0], a[0]}, {a[0], a[1]}, {a[1]}}, []int{1, 2, 3})
+		case "LookupOvf":
+			x2 := f.Add(a[0], a[0])
+			x4 := f.Add(x2, x2)
+			x8 := f.Add(x4, x4)
+			e := f.Lookup2(selBits[0], selBits[1], a[0], x2, x4, x8)
+			r = f.Mul(f.Sub(a[1], e), a[1])
+		case "ModAddChain":
+			acc := a[0]
+			for i := 0; i < 200; i++ {
+				acc = f.ModAdd(a[0], acc, &c.B)
+			}
+			modres[k] = acc
+			r = a[0]
 		case "ModMulB":
 			modres[k] = f.ModMul(a[0], a[1], &c.B)
 			r = a[0]
@@ -306,11 +319,17 @@ func emuOracle(prog []EmuInstr, a, b *big.Int, sel int, q *big.Int) (int, []*big
 				return 1, nil, nil
 			}
 			r = n().Set(x[0])
-		case "ModMulB", "ModAddB", "ModExpB":
+		case "LookupOvf":
+			cf := new(big.Int).Lsh(big.NewInt(1), uint(sel%4))
+			r = n().Sub(x[1], n().Mul(cf, x[0]))
+			r.Mul(r, x[1])
+		case "ModMulB", "ModAddB", "ModExpB", "ModAddChain":
 			if b.Sign() == 0 {
 				return 2, nil, nil
 			}
 			switch ins.Op {
+			case "ModAddChain":
+				e = n().Mul(raw[0], big.NewInt(201))
 			case "ModMulB":
 				e = n().Mul(raw[0], raw[1])
 			case "ModAddB":
@@ -337,7 +356,9 @@ func emuOracle(prog []EmuInstr, a, b *big.Int, sel int, q *big.Int) (int, []*big
 	return 0, exp, nat
 }
 
-func emuIsMod(op string) bool { return op == "ModMulB" || op == "ModAddB" || op == "ModExpB" }
+func emuIsMod(op string) bool {
+	return op == "ModMulB" || op == "ModAddB" || op == "ModExpB" || op == "ModAddChain"
+}
 
 type EmuRes struct {
 	ID       int      `json:"id"`
@@ -421,7 +442,7 @@ func emuRun[T emulated.FieldParams](b *EmuBeh, pname string, native ecc.ID, full
 		if emuIsMod(ins.Op) {
 			hasMod = true
 		}
-		if ins.Op == "Select" || ins.Op == "Mux3" || ins.Op == "Lookup2" {
+		if ins.Op == "Select" || ins.Op == "Mux3" || ins.Op == "Lookup2" || ins.Op == "LookupOvf" {
 			usesSel = true
 		}
 	}
@@ -606,6 +627,46 @@ func emuRun[T emulated.FieldParams](b *EmuBeh, pname string, native ecc.ID, full
 						}
 					}
 				}
+				// the non-canonical remainder adversary: with it, a flipped zero test / the bits of r+q must still be rejected
+				lastOp := b.Prog[len(b.Prog)-1].Op
+				if ok && !toy && (lastOp == "IsZeroSel" || lastOp == "CanonBits") && vi%5 == 0 && sel == sels[0] {
+					var mh solver.Hint
+					for _, h := range emulated.GetHints() {
+						if strings.HasSuffix(solver.GetHintName(h), "emulated.mulHint") {
+							mh = h
+						}
+					}
+					var flips [][2][]*big.Int // expectations that must not be accepted
+					last := len(exp) - 1
+					if lastOp == "IsZeroSel" {
+						for _, d := range []int64{1, -1} {
+							w := append([]*big.Int(nil), exp...)
+							w[last] = new(big.Int).Mod(new(big.Int).Add(exp[last], big.NewInt(d)), q)
+							flips = append(flips, [2][]*big.Int{w, nat})
+						}
+					} else if rq := new(big.Int).Add(exp[last], q); rq.BitLen() <= int(t.BitsPerLimb()*t.NbLimbs()) {
+						wn := append([]*big.Int(nil), nat...)
+						wn[last] = new(big.Int).And(rq, big.NewInt(255))
+						if wn[last].Cmp(nat[last]) != 0 {
+							flips = append(flips, [2][]*big.Int{exp, wn})
+						}
+					}
+					if mh != nil && len(flips) > 0 {
+						n, used := 0, false
+						_ = prove(as, solver.OverrideHint(solver.GetHintID(mh), emuNonCanonHint(mh, -1, &n, &used)))
+						total := n
+						for target := 0; target < total && target < 12; target++ {
+							for _, fl := range flips {
+								n, used = 0, false
+								e := prove(mkAssign(v.a, v.b, sel, fl[0], fl[1]), solver.OverrideHint(solver.GetHintID(mh), emuNonCanonHint(mh, target, &n, &used)))
+								res.Tampered++
+								if used && e == nil {
+									bad("non-canonical remainder from the multiplication hint (call %d) makes a wrong %s outcome provable: %s", target, lastOp, desc)
+								}
+							}
+						}
+					}
+				}
 				doTamper := tamper && ok && !(hasMod && pow2(v.b))
 				if toy {
 					doTamper = doTamper && vi%12 == 7
@@ -750,6 +811,109 @@ func emuWrapHint(honest solver.Hint, used *bool) solver.Hint {
 				carry.Sub(carry, rhs[i])
 			}
 			carry.Mul(carry, tinv).Mod(carry, field)
+			carries[i].Set(carry)
+		}
+		*used = true
+		return nil
+	}
+}
+
+// emuNonCanonHint is a dishonest multiplication hint for one chosen call (target): it returns the remainder plus the
+// modulus and the quotient minus one (carries recomputed): congruent, but not the canonical representative. Arithmetic
+// stays correct; whatever the library documents as canonical (zero tests, canonical bits) must not follow it.
+func emuNonCanonHint(honest solver.Hint, target int, calls *int, used *bool) solver.Hint {
+	return func(field *big.Int, inputs, outputs []*big.Int) error {
+		if err := honest(field, inputs, outputs); err != nil {
+			return err
+		}
+		me := *calls
+		*calls++
+		if me != target {
+			return nil
+		}
+		nbBits := uint(inputs[0].Int64())
+		nbLimbs := int(inputs[1].Int64())
+		nbALen := int(inputs[2].Int64())
+		nbQuoLen := int(inputs[3].Int64())
+		nbBLen := len(inputs) - 4 - nbLimbs - nbALen
+		recompose := func(l []*big.Int) *big.Int {
+			r := new(big.Int)
+			for i := len(l) - 1; i >= 0; i-- {
+				r.Lsh(r, nbBits).Add(r, l[i])
+			}
+			return r
+		}
+		decompose := func(v *big.Int, l []*big.Int) bool {
+			x := new(big.Int).Set(v)
+			mask := new(big.Int).Sub(new(big.Int).Lsh(big.NewInt(1), nbBits), big.NewInt(1))
+			for i := range l {
+				l[i].And(x, mask)
+				x.Rsh(x, nbBits)
+			}
+			return x.Sign() == 0
+		}
+		limbMul := func(x, y []*big.Int) []*big.Int {
+			if len(x) == 0 || len(y) == 0 {
+				return nil
+			}
+			r := make([]*big.Int, len(x)+len(y)-1)
+			for i := range r {
+				r[i] = new(big.Int)
+			}
+			for i := range x {
+				for j := range y {
+					r[i+j].Add(r[i+j], new(big.Int).Mul(x[i], y[j]))
+				}
+			}
+			return r
+		}
+		plimbs := inputs[4 : 4+nbLimbs]
+		alimbs := inputs[4+nbLimbs : 4+nbLimbs+nbALen]
+		blimbs := inputs[4+nbLimbs+nbALen : 4+nbLimbs+nbALen+nbBLen]
+		quo := outputs[0:nbQuoLen]
+		rem := outputs[nbQuoLen : nbQuoLen+nbLimbs]
+		carries := outputs[nbQuoLen+nbLimbs:]
+		k, r, p := recompose(quo), recompose(rem), recompose(plimbs)
+		if k.Sign() == 0 {
+			return nil
+		}
+		r2 := new(big.Int).Add(r, p)
+		k2 := new(big.Int).Sub(k, big.NewInt(1))
+		sq := make([]*big.Int, len(quo))
+		sr := make([]*big.Int, len(rem))
+		for i := range sq {
+			sq[i] = new(big.Int)
+		}
+		for i := range sr {
+			sr[i] = new(big.Int)
+		}
+		if !decompose(k2, sq) || !decompose(r2, sr) {
+			return nil
+		}
+		for i := range sq {
+			quo[i].Set(sq[i])
+		}
+		for i := range sr {
+			rem[i].Set(sr[i])
+		}
+		lhs := limbMul(alimbs, blimbs)
+		rhs := limbMul(quo, plimbs)
+		for i := range rem {
+			if i < len(rhs) {
+				rhs[i].Add(rhs[i], rem[i])
+			} else {
+				rhs = append(rhs, new(big.Int).Set(rem[i]))
+			}
+		}
+		carry := new(big.Int)
+		for i := range carries {
+			if i < len(lhs) {
+				carry.Add(carry, lhs[i])
+			}
+			if i < len(rhs) {
+				carry.Sub(carry, rhs[i])
+			}
+			carry.Rsh(carry, nbBits)
 			carries[i].Set(carry)
 		}
 		*used = true
